@@ -28,9 +28,13 @@ fn safe_join(root: &Path, rel: &str) -> Option<PathBuf> {
     Some(root.join(p))
 }
 
+/// Staging name for a write to `dst`. It carries this server's pid: every client has
+/// its own `copia serve` process and staging happens OUTSIDE the commit lock, so a name
+/// that depends on the destination alone would let two concurrent writers truncate and
+/// publish each other's staged bytes.
 fn tmp_of(dst: &Path) -> PathBuf {
     let mut s = dst.as_os_str().to_owned();
-    s.push(".copia-tmp");
+    s.push(format!(".{}.copia-tmp", std::process::id()));
     PathBuf::from(s)
 }
 
